@@ -129,36 +129,38 @@ type FnCtx struct {
 	nheap     int
 	ordinals  map[string]int
 
-	allocIDs    map[ssa.Value]int
-	unescaped   map[ssa.Value]bool
-	allocRefs   map[ssa.Value]Val
-	nalloc      int
-	loops       map[*ssa.BasicBlock]*loopInfo
-	loopOrder   []*ssa.BasicBlock
-	backEdge    map[[2]int]bool
-	order       []*ssa.BasicBlock
-	posText     map[token.Pos]string
-	cur         *ssa.BasicBlock
-	curIdx      int
-	retReach    []string
-	wfSeen      map[string]bool
-	curInstr    ssa.Instruction
-	regionSorts map[string]string
-	reachM      map[int]map[int]bool
-	curReach    string
-	heap        *Heap
-	ghost       map[string]string
-	ghostSort   map[string]string
-	ghost0      map[string]string
-	defers      []deferred
-	subrefSeen  map[string]bool
-	strLits     map[string]string
-	debugRefs   map[types.Object][]*ssa.DebugRef
-	paramVals   map[string]Val
-	retBlocks   []*ssa.BasicBlock
-	props       []string
-	curLoopPre  map[*ssa.BasicBlock]*Heap
-	failedBind  []string
+	allocIDs     map[ssa.Value]int
+	unescaped    map[ssa.Value]bool
+	allocRefs    map[ssa.Value]Val
+	nalloc       int
+	loops        map[*ssa.BasicBlock]*loopInfo
+	loopOrder    []*ssa.BasicBlock
+	backEdge     map[[2]int]bool
+	order        []*ssa.BasicBlock
+	posText      map[token.Pos]string
+	cur          *ssa.BasicBlock
+	curIdx       int
+	preCallHeap  *Heap
+	preCallGhost map[string]string
+	retReach     []string
+	wfSeen       map[string]bool
+	curInstr     ssa.Instruction
+	regionSorts  map[string]string
+	reachM       map[int]map[int]bool
+	curReach     string
+	heap         *Heap
+	ghost        map[string]string
+	ghostSort    map[string]string
+	ghost0       map[string]string
+	defers       []deferred
+	subrefSeen   map[string]bool
+	strLits      map[string]string
+	debugRefs    map[types.Object][]*ssa.DebugRef
+	paramVals    map[string]Val
+	retBlocks    []*ssa.BasicBlock
+	props        []string
+	curLoopPre   map[*ssa.BasicBlock]*Heap
+	failedBind   []string
 }
 
 type deferred struct {
@@ -286,8 +288,22 @@ func splitGoal(t string) []string {
 			}
 			parts := splitGoal(body)
 			if len(parts) > 1 {
+				var names []string
+				for _, d := range sexprArgs("(x " + strings.TrimSuffix(strings.TrimPrefix(args[0], "("), ")") + ")") {
+					if da := sexprArgs("(x " + strings.TrimSuffix(strings.TrimPrefix(d, "("), ")") + ")"); len(da) > 0 {
+						names = append(names, da[0])
+					}
+				}
 				var out []string
 				for _, c := range parts {
+					// each part keeps triggers of its own (the formula is also assumed after it has been proved)
+					if alts := autoTriggers(c, names); len(alts) > 0 {
+						var pats []string
+						for _, a := range alts {
+							pats = append(pats, ":pattern ("+strings.Join(a, " ")+")")
+						}
+						c = "(! " + c + " " + strings.Join(pats, " ") + ")"
+					}
 					out = append(out, "(forall "+args[0]+" "+c+")")
 				}
 				return out
